@@ -477,17 +477,19 @@ def main(ctx):
         "they are covered by emit_height + corr1 for the modelled expression fragment and by the crash search otherwise",
     ]
     regen_ok = ctx.regen()
-    lean_ok, errs = ctx.lake_build(["GojaModel.C01.Props", "GojaModel.C01.Tie", "model_c01"])
+    # theorems + model driver first; the Tie theorems separately, so that a tie broken by a change in /repo does not take
+    # the model driver (needed by the correspondences and by the search for a failing input) down with it
+    lean_ok, errs = ctx.lake_build(["GojaModel.C01.Props", "model_c01"])
     names = ctx.audit("GojaModel.C01.Props", expect_min=16) if lean_ok else []
-    if lean_ok:
-        # Tie theorems are obligations of kind tie
-        ctx.audit_tie = None
+    tie_ok, terrs = ctx.lake_build(["GojaModel.C01.Tie"])
+    if tie_ok:
         for t in ["modelOps_agree", "tie_new", "tie_rdupN", "tie_dupLast", "tie_concatStrings", "new_instance", "jumps_agree",
-                  "dyn_covered", "emitSetP_pops", "enterFinally_clears", "exceptionFromValue_cases", "asUncatchable_cases", "recover_sites"]:
+                  "dyn_covered", "emitSetP_pops", "enterFinally_clears", "exceptionFromValue_cases", "asUncatchable_cases",
+                  "recover_sites"]:
             ctx.obligation("tie:" + t, "tie", True, "checked by lake build GojaModel.C01.Tie")
     else:
-        ctx.obligation("tie:GojaModel.C01.Tie", "tie", not any("Tie.lean" in e["file"] or "Generated" in e["file"] for e in errs),
-                       "; ".join("%s:%s %s" % (e["file"], e["line"], e["msg"][:120]) for e in errs[:5]))
+        ctx.obligation("tie:GojaModel.C01.Tie", "tie", False,
+                       "; ".join("%s:%s %s %s" % (e["file"], e["line"], e["decl"], e["msg"][:120]) for e in terrs[:5]))
     if lean_ok and ctx.tier == "thorough":
         ctx.leanchecker("GojaModel.C01.Props")
     hbin = ctx.go_build()
